@@ -418,3 +418,54 @@ Example C08_cubic_slopes_nonvacuous :
   Forall (fun r : mrec (T:=R) => m_nd r <> 0%Z) [mkM 31%Z 10 1 2; mkM 29%Z 5 3 4]%R.
 Proof. repeat constructor; discriminate. Qed.
 Print Assumptions C08_cubic_slopes_nonvacuous.
+
+(* ================================================================== *)
+(* The same property on the REGENERATED program: [program] is the MiniC  *)
+(* translation of the C kernel produced from the tree under test on      *)
+(* every run (Gen/KernelsAst.v); [exec_fun] its interpreter (MiniC.v).   *)
+(* ================================================================== *)
+From Coq Require Import String Lia.
+From Hy Require Import Base.MiniC Gen.KernelsAst Proofs.RefineDutils.
+Open Scope string_scope.
+Open Scope list_scope.
+Open Scope Z_scope.
+
+(* c_aggregate = the kernel model [c_aggregate] (the one [py_aggregate] calls), any
+   arithmetic instance whose (double)0 is its zero (binary64, reals, reals with NaN), any
+   operator code, any maxnan, any index (decreasing included: positive code), any values,
+   the empty input included (the repaired kernel returns 0 groups where the model says
+   KUndef), any initial buffer content *)
+Theorem C08_kernel_aggregate_refines_model :
+  forall {T} (N : NumOps T) (X : NumLit T), nofZ N 0 = n0 N ->
+  forall op maxnan idx (xs outbuf : list T) ie n,
+  List.length xs = List.length idx -> List.length outbuf = List.length idx ->
+  (List.length idx < n)%nat ->
+  let run := exec_fun N X program (S n) "c_aggregate"
+     [AVI (MiniC.zlen idx); AVI op; AVI maxnan; AVArrI idx; AVArrF xs; AVArrF outbuf; AVArrI [ie]] in
+  match c_aggregate N (agg_upd N) (MiniC.zlen idx) op maxnan idx xs outbuf with
+  | KUndef => run = Ok (RI 0, [VArrI idx; VArrF xs; VArrF outbuf; VArrI [0]])
+  | KDone (out, iend) => run = Ok (RI 0, [VArrI idx; VArrF xs; VArrF out; VArrI [iend]])
+  | _ => exists code out', 0 < code /\ List.length out' = List.length outbuf /\
+         run = Ok (RI code, [VArrI idx; VArrF xs; VArrF out'; VArrI [ie]])
+  end.
+Proof. exact @refine_aggregate. Qed.
+Print Assumptions C08_kernel_aggregate_refines_model.
+
+Theorem C08_kernel_flathomogen_refines_model :
+  forall {T} (N : NumOps T) (X : NumLit T), nofZ N 0 = n0 N ->
+  forall maxnan idx (xs outbuf : list T) n,
+  List.length xs = List.length idx -> List.length outbuf = List.length idx ->
+  (List.length idx < n)%nat ->
+  let run := exec_fun N X program (S n) "c_flathomogen"
+     [AVI (MiniC.zlen idx); AVI maxnan; AVArrI idx; AVArrF xs; AVArrF outbuf] in
+  match c_flathomogen N maxnan idx xs with
+  | KUndef => run = Ok (RI 0, [VArrI idx; VArrF xs; VArrF outbuf])
+  | KDone out => run = Ok (RI 0, [VArrI idx; VArrF xs; VArrF out])
+  | _ => exists code out', 0 < code /\ List.length out' = List.length outbuf /\
+         run = Ok (RI code, [VArrI idx; VArrF xs; VArrF out'])
+  end.
+Proof. exact @refine_flathomogen. Qed.
+Print Assumptions C08_kernel_flathomogen_refines_model.
+
+Example C08_kernel_hyp_instances : nofZ F64 0 = n0 F64 /\ nofZ RR 0 = n0 RR /\ nofZ RN 0 = n0 RN.
+Proof. exact (conj HZ_F64 (conj HZ_RR HZ_RN)). Qed.
